@@ -183,6 +183,8 @@ func run(c *runner.Ctx) {
 	checkWide(c, &idx)
 	// part 4: empty values through transformations that map "" to something else
 	checkEmpty(c, &idx)
+	// part 5: MATCHED_VARS belongs to the rule being evaluated
+	checkMatchedVarsScope(c, &idx)
 	for _, f := range first {
 		for _, s := range second {
 			for _, ph := range [][2]int{{2, 2}, {2, 1}, {1, 2}} {
@@ -348,6 +350,72 @@ func checkEmpty(c *runner.Ctx, idx *int) {
 	}
 }
 
+// checkMatchedVarsScope: MATCHED_VARS / MATCHED_VARS_NAMES hold the values matched by the links of the chain that is
+// being evaluated. A rule that is not part of a chain therefore never finds anything in them - whatever an earlier
+// rule matched, and in particular when an earlier chain matched its first links and then failed.
+func checkMatchedVarsScope(c *runner.Ctx, idx *int) {
+	for _, starterPhase := range []int{1, 2} {
+		for _, readerPhase := range []int{1, 2} {
+			if readerPhase < starterPhase {
+				continue
+			}
+			for _, links := range []int{2, 3} {
+				for _, failing := range []int{0, 1, 2} { // 0 = the chain completes
+					if failing >= links {
+						continue
+					}
+					*idx++
+					if !c.Mine(*idx) || c.Expired() {
+						continue
+					}
+					var sb strings.Builder
+					sb.WriteString("SecRuleEngine On\nSecRequestBodyAccess On\n")
+					fmt.Fprintf(&sb, "SecRule ARGS_GET \"@rx ^x\" \"id:1,phase:%d,pass,log,chain\"\n", starterPhase)
+					for l := 1; l < links; l++ {
+						op := "@rx ."
+						if l == failing {
+							op = "@rx ^never-there$"
+						}
+						last := "t:none"
+						if l < links-1 {
+							last = "chain"
+						}
+						fmt.Fprintf(&sb, "  SecRule ARGS_GET_NAMES \"%s\" \"%s\"\n", op, last)
+					}
+					fmt.Fprintf(&sb, "SecRule MATCHED_VARS|MATCHED_VARS_NAMES \"@rx .\" \"id:2,phase:%d,pass,log\"\n", readerPhase)
+					fmt.Fprintf(&sb, "SecRule &MATCHED_VARS \"@eq 0\" \"id:3,phase:%d,pass,log\"\n", readerPhase)
+					fmt.Fprintf(&sb, "SecRule &MATCHED_VARS_NAMES \"!@eq 0\" \"id:4,phase:%d,pass,log\"\n", readerPhase)
+					conf := sb.String()
+					w, err := scen.Build(conf)
+					if err != nil {
+						c.Violation("build:"+firstLine(err.Error()), "generated configuration rejected: "+err.Error()+"\n"+conf, kase{})
+						continue
+					}
+					for _, uri := range []string{"/p?a=x", "/p?a=x&b=x2", "/p?a=y", "/p?a=x&a=x3&c=y"} {
+						o := scen.Run(w, scen.Req{URI: uri}, scen.Options{})
+						c.Count("evaluations", 1)
+						matchesStarter := strings.Contains(uri, "=x")
+						want := map[int]bool{1: matchesStarter && failing == 0, 2: false, 3: true, 4: false}
+						got := map[int]bool{}
+						for _, m := range o.Matched {
+							got[m.ID] = true
+						}
+						c.Outcome(fmt.Sprint(got))
+						c.Distinct(fmt.Sprintf("mvscope:%d:%d:%d:%d:%s", starterPhase, readerPhase, links, failing, uri))
+						for id := 1; id <= 4; id++ {
+							if got[id] != want[id] {
+								c.Violation("matched-vars-outlive-their-rule", fmt.Sprintf("configuration:\n%srequest %s: rule %d fired=%v, want %v (MATCHED_VARS of an earlier rule must not be visible to a later one)\n%s", conf, uri, id, got[id], want[id], render(o)), map[string]any{"mvscope": true, "conf": conf, "uri": uri})
+								break
+							}
+						}
+					}
+					scen.Close(w)
+				}
+			}
+		}
+	}
+}
+
 func clip(s string) string {
 	if len(s) > 1500 {
 		return s[:700] + "\n...[" + strconv.Itoa(len(s)) + " bytes]...\n" + s[len(s)-700:]
@@ -475,6 +543,25 @@ func classify(rules []*sm.Rule, q sm.Request, o *probe.Outcome, want []sm.Fired)
 }
 
 func replay(raw json.RawMessage) (bool, string) {
+	var mv struct {
+		MV   bool   `json:"mvscope"`
+		Conf string `json:"conf"`
+		URI  string `json:"uri"`
+	}
+	if err := json.Unmarshal(raw, &mv); err == nil && mv.MV {
+		w, err := scen.Build(mv.Conf)
+		if err != nil {
+			return true, "build: " + err.Error()
+		}
+		defer scen.Close(w)
+		o := scen.Run(w, scen.Req{URI: mv.URI}, scen.Options{})
+		got := map[int]bool{}
+		for _, m := range o.Matched {
+			got[m.ID] = true
+		}
+		// rule 2 reads MATCHED_VARS outside any chain: it must never fire; rule 3 (&MATCHED_VARS @eq 0) always does
+		return got[2] || !got[3] || got[4], fmt.Sprintf("configuration:\n%srequest %s\n%s", mv.Conf, mv.URI, render(o))
+	}
 	var k kase
 	if err := json.Unmarshal(raw, &k); err != nil {
 		return false, err.Error()
